@@ -149,6 +149,22 @@ func encCond(c *Ctx, t Term, bufT Term, par types.Object) Tri {
 		if _, isNil := l.(TNil); isNil {
 			l, r = r, l
 		}
+		if _, lc := l.(TConst); lc {
+			if _, rc := r.(TConst); !rc {
+				// constant on the left: k OP x is x OP' k
+				l, r = r, l
+				switch op {
+				case token.LSS:
+					op = token.GTR
+				case token.LEQ:
+					op = token.GEQ
+				case token.GTR:
+					op = token.LSS
+				case token.GEQ:
+					op = token.LEQ
+				}
+			}
+		}
 		if _, isNil := r.(TNil); isNil && (op == token.EQL || op == token.NEQ) {
 			// the error of json.Marshal(par) / enc.Encode(par): a string always encodes
 			never := false
@@ -168,7 +184,19 @@ func encCond(c *Ctx, t Term, bufT Term, par types.Object) Tri {
 			}
 			return U
 		}
-		// len(E) against a constant: len(E) >= 1
+		// len(E) against a constant: len(E) >= 1 (len(E)-c OP k is len(E) OP k+c)
+		if sb, ok := l.(TBin); ok && (sb.Op == token.SUB || sb.Op == token.ADD) && isLenE(sb.X) {
+			if cc, ok := constInt(sb.Y); ok {
+				if k, ok := constInt(r); ok {
+					if sb.Op == token.SUB {
+						k += cc
+					} else {
+						k -= cc
+					}
+					l, r = sb.X, TConst{constant.MakeInt64(k)}
+				}
+			}
+		}
 		if k, ok := constInt(r); ok && isLenE(l) {
 			switch {
 			case op == token.GTR && k <= 0, op == token.GEQ && k <= 1, op == token.NEQ && k <= 0:
@@ -402,8 +430,33 @@ func (e *emitter) tokens(t Term) []sTok {
 	}
 	switch x := t.(type) {
 	case TConv:
-		if isStringType(x.To) || isIntType(x.To) {
+		if isStringType(x.To) || isIntType(x.To) || isByteSlice(x.To) {
 			return e.tokens(x.X)
+		}
+	case TNil:
+		return nil // an empty []byte
+	case TLit:
+		// []byte{'[', …}
+		if x.Type != nil && isByteSlice(x.Type) {
+			var out []sTok
+			for _, el := range x.Elts {
+				out = append(out, e.tokens(el)...)
+			}
+			return out
+		}
+	case TBuiltin:
+		if x.Type != nil && x.Name == "make" && isByteSlice(x.Type) && len(x.Args) >= 1 {
+			if k, ok := constInt(x.Args[0]); ok && k == 0 {
+				return nil
+			}
+		}
+		if x.Name == "append" && len(x.Args) >= 1 {
+			// text accumulated in a []byte: append(b, 'c'), append(b, s...)
+			out := e.tokens(x.Args[0])
+			for _, a := range x.Args[1:] {
+				out = append(out, e.tokens(a)...)
+			}
+			return out
 		}
 	case TBin:
 		if x.Op == token.ADD {
@@ -683,7 +736,7 @@ func (e *emitter) loop(l *LoopRec) bool {
 				return false
 			}
 			e.ints[k] = v
-		case isStringType(o.Type()):
+		case isStringType(o.Type()) || isByteSlice(o.Type()):
 			e.strs[k] = mergeToks(e.tokens(t))
 		case types.Identical(o.Type().Underlying(), types.Typ[types.Bool]):
 			te := &termEnv{hook: e.hook, bhook: e.bhook}
@@ -775,7 +828,7 @@ func (e *emitter) loop(l *LoopRec) bool {
 					}
 					e.ints[k+"#next"] = v
 				}
-			case isStringType(o.Type()):
+			case isStringType(o.Type()) || isByteSlice(o.Type()):
 				if _, tracked := e.strs[k]; tracked {
 					e.strs[k+"#next"] = mergeToks(e.tokens(nt))
 				}
